@@ -34,7 +34,7 @@ ASSUMPTIONS = [
     "successful parses legitimately leave their symbol tables behind (the property only constrains create and failing parses)",
 ]
 BOUNDS = {
-    "quick": dict(length=4, note="11-op core alphabet to length 4; all 19 ops to length 3; every create-parse-create-parse history over all sources"),
+    "quick": dict(length=4, note="11-op core alphabet to length 4; all 21 ops (19 string sources + a file-reader parse + a source with an INCLUDE that must stay unresolved) to length 3; every create-parse-create-parse history over all sources"),
     "thorough": dict(length=5, note="all 19 ops to length 4; 9-op alphabet to length 5"),
 }
 
@@ -55,6 +55,32 @@ SOURCES = {
     "i5": "module m2\n integer :: tan\nend module m2\nprogram p\n x = = 1\nend program p\n",
     "i6": "program p\n use mm, only: sin, cos\n x = = 1\nend program p\n",
 }
+# f1: a FILE parsed through FortranFileReader with default options (its directory
+# holds c09_decls.inc); vA: a string source whose INCLUDE names that file - not on
+# its own include path, so the line must stay an Include_Stmt whatever was parsed before
+SOURCES["f1"] = "@file:other.f90"
+SOURCES["vA"] = "program p\n include 'c09_decls.inc'\n x = 1\nend program p\n"
+_FILES = {"other.f90": "module other\n integer :: k\nend module other\n", "c09_decls.inc": " integer :: leaked_from_other_directory\n"}
+
+
+def _files_dir():
+    """directory holding the files of the f1 operation: created once per run
+    (its path travels to workers and reference interpreters in the environment)"""
+    import atexit, shutil, tempfile
+
+    d = os.environ.get("C09_FILES_DIR")
+    if not d or not os.path.isdir(d):
+        d = tempfile.mkdtemp(prefix="c09_files_")
+        os.environ["C09_FILES_DIR"] = d
+        os.mkdir(os.path.join(d, "lib"))
+        for name, text in _FILES.items():
+            with open(os.path.join(d, "lib", name), "w") as f:
+                f.write(text)
+        owner = os.getpid()
+        atexit.register(lambda: os.getpid() == owner and shutil.rmtree(d, ignore_errors=True))
+    return os.path.join(d, "lib")
+
+
 OPS = ["c3", "c8"] + sorted(SOURCES)
 OPS_SMALL = ["c3", "c8", "v1", "v2", "v3", "v4", "i2", "i3", "i4"]
 # core alphabet explored to the full length in the quick tier
@@ -92,7 +118,13 @@ def registry_hash():
 def apply_op(op):
     """runs in a forked child; returns the observation (picklable dict)"""
     from fparser.two.parser import ParserFactory
-    from fparser.common.readfortran import FortranStringReader
+    from fparser.common.readfortran import FortranStringReader, FortranFileReader
+
+    def reader_for(op):
+        src = SOURCES[op]
+        if src.startswith("@file:"):
+            return FortranFileReader(os.path.join(_files_dir(), src[6:]))
+        return FortranStringReader(src)
 
     if op in _STD:
         _state["parser"] = ParserFactory().create(std=_STD[op])
@@ -101,7 +133,7 @@ def apply_op(op):
         return {"k": "no-parser"}
     before = tables_tree()
     try:
-        tree = base.with_timeout(30.0, lambda: _state["parser"](FortranStringReader(SOURCES[op])))
+        tree = base.with_timeout(30.0, lambda: _state["parser"](reader_for(op)))
         out = {"k": "tree", "h": h64(canon(tree), text_of(tree)), "d": canon(tree)[:300]}
     except BaseException as e:
         out = {"k": "exc", "h": h64(type(e).__name__, str(e)), "d": "%s: %s" % (type(e).__name__, str(e)[:200])}
@@ -144,6 +176,7 @@ def compute_refs():
 
 
 def plan(tier, seed):
+    _files_dir()
     if not _REFS:
         compute_refs()
     srcs = sorted(SOURCES)
@@ -324,6 +357,9 @@ def snippet(case):
     for op in hist:
         if op in _STD:
             lines.append("p = ParserFactory().create(std=%r)" % _STD[op])
+        elif op in SOURCES and SOURCES[op].startswith("@file:"):
+            lines.append("# a directory 'lib' holding other.f90 (%r) and c09_decls.inc (%r)" % (_FILES["other.f90"], _FILES["c09_decls.inc"]))
+            lines.append("from fparser.common.readfortran import FortranFileReader\nprint(repr(p(FortranFileReader('lib/other.f90'))))")
         elif op in SOURCES:
             lines.append("try:\n    print(repr(p(FortranStringReader(%r))))\nexcept Exception as e:\n    print('raised', type(e).__name__)" % SOURCES[op])
             lines.append("print('scope after:', SYMBOL_TABLES.current_scope)")
